@@ -164,7 +164,7 @@ impl Lattice {
             let new_cost = l_node.total_cost() + connect_cost + node_cost;
             if new_cost < min_cost {
                 min_cost = new_cost;
-                prev_idx = NodeIdx::new(begin as u16, i as u16);
+                prev_idx = NodeIdx::new(begin as u16, i as u32);
             }
         }
 
